@@ -50,7 +50,7 @@ PREFIXES = [
     ("note+zid", f"- {PRIMARY} "), ("prio+zid", f"o P2 {PRIMARY} "), ("stamped+zid", f"o P3 240502 {PRIMARY} "),
     ("comment", "# "), ("bullet", "  * "), ("bullet2", "    - "), ("done+zid", f"x {PRIMARY} "),
 ]
-WRAPPERS = ["bare", "trail", "paren", "quote"]
+WRAPPERS = ["bare", "trail", "paren", "quote", "iprop"]
 
 
 def wrap(text: str, w: str, k: int) -> str:
@@ -58,6 +58,11 @@ def wrap(text: str, w: str, k: int) -> str:
         return text
     if w == "trail":
         return text + ".,)"[k % 3]
+    if w == "iprop":
+        # the target is the value of an inline property: [see:: [[p]]]
+        if not text.startswith("["):
+            return text
+        return "[see:: " + text + "]"
     if w == "quote":
         # quotes / angle brackets around a bracketed target (a bare ZID in quotes is
         # not obviously a ZID reference, so it stays bare)
